@@ -140,7 +140,7 @@ theorem swap_double_priced (s s' : State) (sender rcpt : Addr) (inD outD : Denom
     (buy : Bool) (dl : Int) (resp : CoinList) (hdouble : isDouble s inD outD = true)
     (h : step s (.swap sender rcpt inD inA outD outA buy dl) = .ok (s', resp)) :
     ∃ (na nb sold k bought : Nat) (s1 : State),
-      Ledger s.bank s1.bank (singleSpec sender rcpt na inD s.std sold k) ∧
+      Ledger s.bank s1.bank (singleSpec sender sender na inD s.std sold k) ∧
       Ledger s1.bank s'.bank (singleSpec sender rcpt nb s.std outD k bought) ∧
       (buy = false → (sold : Int) = inA) ∧ (buy = true → (bought : Int) = outA) ∧
       LegPriced (s.bank.balOf (poolAddr na) inD) (s.bank.balOf (poolAddr na) s.std) s.params.fee sold k buy ∧
@@ -271,10 +271,10 @@ theorem swap_good (s s' : State) (sender rcpt : Addr) (inD outD : Denom) (inA ou
               outA.toNat < s1.bank.balOf (poolAddr nb) outD ∧
               s1.bank.balOf (poolAddr nb) s.std * s1.bank.balOf (poolAddr nb) outD
                 ≤ (s1.bank.balOf (poolAddr nb) s.std + k) * (s1.bank.balOf (poolAddr nb) outD - outA.toNat) := by
-            intro hr
+            intro _
             have e1 := hled1.1 (poolAddr nb) s.std
             have e2 := hled1.1 (poolAddr nb) outD
-            rw [single_net_zero (hso nb) hnab hr] at e1 e2
+            rw [single_net_zero (hso nb) hnab (hso nb)] at e1 e2
             have e1' : s1.bank.balOf (poolAddr nb) s.std = s.bank.balOf (poolAddr nb) s.std := by omega
             have e2' : s1.bank.balOf (poolAddr nb) outD = s.bank.balOf (poolAddr nb) outD := by omega
             rw [e1', e2']
